@@ -49,6 +49,22 @@ WalkReader(e, k, cur, peeked, failed) ==
              \o (IF ~failed2 /\ (c.sline # pos.line \/ c.scol # pos.col) THEN << <<k, "slice position differs from the position of the cursor">> >> ELSE <<>>)
        IN here \o WalkReader(e, k + 1, cur2, peeked2, failed2)
 
+\* If the delivered prefix ends inside a multi-byte character, the character is completed (with the smallest
+\* continuation bytes that keep it well-formed): whatever the missing bytes are, the token goes on with one more
+\* character - so if the reference calls the completed prefix malformed, the delivered bytes had determined the outcome.
+CutStart(p) ==
+  LET n == Len(p)
+      cands == {i \in 1..n : i >= n - 2 /\ Utf8Len(p[i]) > 1 /\ i + Utf8Len(p[i]) - 1 > n /\ \A k \in (i + 1)..n : IsCont(p[k])}
+  IN IF cands = {} THEN 0 ELSE CHOOSE i \in cands : \A j \in cands : i <= j
+CompleteCut(p) ==
+  LET i == CutStart(p) IN
+  IF i = 0 THEN p
+  ELSE LET b == p[i]
+           have == Len(p) - i                       \* continuation bytes already there
+           need == Utf8Len(b) - 1 - have
+           first == IF have > 0 THEN 128 ELSE IF b = 224 THEN 160 ELSE IF b = 240 THEN 144 ELSE 128
+       IN p \o [k \in 1..need |-> IF k = 1 THEN first ELSE 128]
+
 JudgeRun(e) ==
   IF e.fault < 0 THEN (IF e.same THEN "ok" ELSE "result depends on the source or on how the stream delivers the bytes")
   ELSE IF ~e.invoked THEN (IF e.same THEN "ok" ELSE "a read error that was never reached changed the result")
@@ -59,9 +75,15 @@ JudgeRun(e) ==
        \* delivered before the failure already determined the outcome: the reference reader calls the
        \* delivered prefix malformed (DESIGN.md C06, Interpretation).  If it calls the prefix incomplete or
        \* well-formed, the read failure was treated as end of input / swallowed.
-       LET r == ReadOne(e.prefix, e.ro) IN
+       LET r == ReadOne(e.prefix, e.ro)
+           rc == IF CutStart(e.prefix) = 0 THEN r ELSE ReadOne(CompleteCut(e.prefix), e.ro)
+       IN
        IF r.t \in {"rej", "trailing", "nonum"} THEN "ok"
+       ELSE IF e.kind = "syntax" /\ rc.t \in {"rej", "trailing", "nonum"} THEN "ok"
        ELSE IF r.t = "unspec" /\ e.kind = "syntax" /\ e.prefixSyntax THEN "ok"
+       \* where the documentation leaves the reading of the prefix open, the implementation's own answer decides:
+       \* every continuation of the delivered prefix gives the very result of this run (logged as determined)
+       ELSE IF r.t = "unspec" /\ e.determined THEN "ok"
        ELSE IF e.kind = "eof" THEN "read failure treated as end of input"
        ELSE "read failure not reported as an I/O error"
   ELSE "read failure not reported as an I/O error"
